@@ -107,3 +107,55 @@ func VerifC11_T8StallFunnel() {
 	vsymAssert(len(rt.tcpDown) == 1, "t8-stall-reports-exactly-one-TCPDown")
 	vsymAssert(len(rt.delivered) == 0, "partial-frame-not-delivered")
 }
+
+// VerifC11_SelectFailureFunnel: the active Select procedure against every way the transaction can
+// end: Select.rsp with an arbitrary status byte, a response of another kind, no response (T6 / any
+// transport error), with the generation alive or already torn down. A failed Select on a live
+// generation reports exactly one TCPDown (so the core reconnects); status 0 and status 1
+// ("already active") report none; a torn-down generation reports none (teardown owns the drop).
+func VerifC11_SelectFailureFunnel() {
+	vsymExpect("ok")
+	vsymExpect("failed")
+	vsymExpect("stale")
+	rt := &vrt{state: hsms.NotSelectedState, timers: hsms.TimerConfig{T6: 5 * time.Second}, sessionID: vsymU16()}
+	tr := newVT(rt, true)
+	outcome := vsymChoose(4) // 0 Select.rsp(status), 1 another message kind, 2 error, 3 nil response without error
+	status := vsymU8()
+	stale := vsymBool()
+	ctx, cancel := contextWithCancel()
+	defer cancel()
+	rt.writeResult = func(msg hsms.Message) (hsms.Message, error) {
+		if stale {
+			cancel() // the generation ends while the Select transaction is pending
+		}
+		switch outcome {
+		case 0:
+			req, _ := msg.(*hsms.ControlMessage)
+			rsp, err := hsms.NewSelectRsp(req, status)
+			vsymAssert(err == nil, "select-rsp-built")
+			return rsp, nil
+		case 1:
+			return hsms.NewLinktestReq(msg.SystemBytes()), nil
+		case 2:
+			return nil, hsms.ErrT6Timeout
+		default:
+			return nil, nil
+		}
+	}
+	tr.runSelectProcedure(ctx)
+	vsymAssert(len(rt.sent) == 1 && rt.sent[0].msg.Type() == hsms.SelectReqType, "exactly-one-select-req-sent")
+	if len(rt.sent) == 1 {
+		vsymAssert(rt.sent[0].msg.SessionID() == rt.sessionID, "select-req-carries-the-configured-session-id")
+	}
+	switch {
+	case outcome == 2 && stale:
+		vsymReach("stale")
+		vsymAssert(len(rt.tcpDown) == 0, "torn-down-generation-reports-nothing")
+	case outcome == 0 && (status == 0 || status == 1):
+		vsymReach("ok")
+		vsymAssert(len(rt.tcpDown) == 0, "accepted-select-keeps-the-link")
+	default:
+		vsymReach("failed")
+		vsymAssert(len(rt.tcpDown) == 1, "failed-select-reports-exactly-one-TCPDown")
+	}
+}
